@@ -48,6 +48,8 @@ def install(plan, obs):
         f = faults.get(file_context.file_path.name)
         if f and f["kind"] == "raise-entry" and _applies(f, cls):
             fired.append((f["file"], "raise-entry"))
+            if f.get("empty_message"):
+                raise InjectedFault()  # str(exc) == "": a bare assert / raise ValueError
             raise InjectedFault(f"injected: transformer entry for {f['file']}")
         return orig_transform.__func__(cls, module, results, file_context)
 
@@ -119,5 +121,29 @@ def install_codemod_fault(plan, obs):
 
     def undo():
         bc.BaseCodemod._apply = orig
+
+    return undo
+
+
+def install_detector_fault(plan, obs):
+    """The codemod's own detection run dies (semgrep killed, out of memory): plan = {"exc": "CalledProcessError" | "OSError"}."""
+    import subprocess
+
+    import codemodder.codemods.semgrep as cs
+
+    fired = []
+    obs.extra["faults_fired"] = fired
+    orig = cs.semgrep_run
+
+    def semgrep_run(*a, **kw):
+        fired.append(("semgrep_run", "detector-fails"))
+        if plan.get("exc") == "OSError":
+            raise OSError(12, "Cannot allocate memory (injected)")
+        raise subprocess.CalledProcessError(2, ["semgrep"], output=b"", stderr=b"injected")
+
+    cs.semgrep_run = semgrep_run
+
+    def undo():
+        cs.semgrep_run = orig
 
     return undo
